@@ -103,6 +103,15 @@ target* make_coll(std::size_t mx, std::size_t bs, const std::string& src, bool h
     using A = memory_pool_collection<PT, BD, fixed_block_allocator<up_alloc>>; return mk<A>([=](void* s) { return new (s) A(mx, bs); }, true, hi);
 }
 
+static bool small_list = false, is_collection = false, log2_buckets_ = false; static std::size_t pool_list_ns = 0;
+static std::size_t list_ns(std::size_t size)
+{
+    if (!is_collection) return pool_list_ns;
+    std::size_t me = small_list ? 1 : 8;
+    if (!log2_buckets_) return size < me ? me : size;
+    std::size_t p = 1; while (p < size) p <<= 1; return p < me ? me : p;
+}
+
 int main()
 {
     install_quiet_handlers();
@@ -111,17 +120,20 @@ int main()
     std::istringstream hs(line); std::string kind, pt, bd, src, pos; std::size_t a1 = 0, a2 = 0;
     target* t = nullptr;
     hs >> kind >> pt;
+    small_list = pt == "small"; is_collection = kind == "coll";
     const char* ex = nullptr;
     try
     {
         if (kind == "pool")
         {
             hs >> a1 >> a2 >> src >> pos; bool hi = pos == "high";
+            pool_list_ns = small_list ? a1 : (a1 < 8 ? 8 : a1);
             t = pt == "node" ? make_pool<node_pool>(a1, a2, src, hi) : pt == "array" ? make_pool<array_pool>(a1, a2, src, hi) : make_pool<small_node_pool>(a1, a2, src, hi);
         }
         else
         {
             hs >> bd >> a1 >> a2 >> src >> pos; bool hi = pos == "high";
+            log2_buckets_ = bd == "log2";
             if (bd == "identity")
                 t = pt == "node" ? make_coll<node_pool, identity_buckets>(a1, a2, src, hi) : pt == "array" ? make_coll<array_pool, identity_buckets>(a1, a2, src, hi) : make_coll<small_node_pool, identity_buckets>(a1, a2, src, hi);
             else
@@ -206,6 +218,14 @@ int main()
             else if (op == "tdn") r = t->tdn(h.p, h.size, h.al); else r = t->tda(h.p, h.count, h.size, h.al);
             char b[160]; std::snprintf(b, sizeof b, "%s %zu %s %zu %zu %zu", r ? "true" : "false", U.off(h.p), h.array ? "arr" : "node", h.count, h.size, h.al);
             if (r) h.live = false;
+#if FOONATHAN_MEMORY_DEBUG_FILL
+            if (r)
+            {   // released memory carries 0xDD except for the bytes the list reuses for its links
+                auto q = static_cast<unsigned char*>(h.p); std::size_t n = (h.array ? h.count : 1) * h.size;
+                std::size_t lns = list_ns(h.size), link = small_list ? 1 : 8;
+                for (std::size_t i = 0; i < n; ++i) if (i % lns >= link && q[i] != 0xDD) { std::printf("nofreedfill off=%zu at=%zu\n", U.off(h.p), i); break; }
+            }
+#endif
             res = b;
         }
         else if (op == "foreign_tdn")
